@@ -24,6 +24,73 @@ use emit::Report;
 /// where the code under test lives (re-pointed for isolated worker copies)
 pub const REPO_ROOT: &str = "/repo/";
 
+/// integer literals of a crate of the tree under test (decimal or hex, `_` separators and type
+/// suffixes allowed), read at run time: a bound the code knows about is a size worth crossing
+pub fn mined_ints(dir: &str, lo: u128, hi: u128) -> Vec<usize> {
+    fn walk(p: &std::path::Path, out: &mut Vec<String>) {
+        if let Ok(rd) = std::fs::read_dir(p) {
+            let mut ents: Vec<_> = rd.flatten().map(|e| e.path()).collect();
+            ents.sort();
+            for e in ents {
+                if e.is_dir() {
+                    walk(&e, out);
+                } else if e.extension().map(|x| x == "rs").unwrap_or(false) {
+                    if let Ok(s) = std::fs::read_to_string(&e) {
+                        out.push(s);
+                    }
+                }
+            }
+        }
+    }
+    let mut srcs = Vec::new();
+    walk(&std::path::Path::new(REPO_ROOT).join(dir), &mut srcs);
+    let mut vals: Vec<usize> = Vec::new();
+    let mut add = |v: u128| {
+        if v > lo && v <= hi && !vals.contains(&(v as usize)) {
+            vals.push(v as usize);
+        }
+    };
+    for s in srcs {
+        let b = s.as_bytes();
+        let mut i = 0;
+        while i < b.len() {
+            let prev_ident = i > 0 && (b[i - 1].is_ascii_alphanumeric() || b[i - 1] == b'_');
+            if b[i].is_ascii_digit() && !prev_ident {
+                let st = i;
+                while i < b.len() && (b[i].is_ascii_alphanumeric() || b[i] == b'_') {
+                    i += 1;
+                }
+                let tok: String = s[st..i].chars().filter(|c| *c != '_').collect();
+                let tok = tok.trim_end_matches("usize").trim_end_matches("u128").trim_end_matches("u64").trim_end_matches("u32").trim_end_matches("u16").trim_end_matches("u8").trim_end_matches("i64").trim_end_matches("i32");
+                let v = if let Some(h) = tok.strip_prefix("0x") { u128::from_str_radix(h, 16).ok() } else { tok.parse::<u128>().ok() };
+                if let Some(v) = v {
+                    add(v);
+                    // a * b written as a product (10 * 1024, 10 * 1024 * 1024)
+                    let rest = s[i..].trim_start();
+                    if let Some(r) = rest.strip_prefix('*') {
+                        let r = r.trim_start();
+                        let d: String = r.chars().take_while(|c| c.is_ascii_digit() || *c == '_').filter(|c| *c != '_').collect();
+                        if let Ok(w) = d.parse::<u128>() {
+                            add(v.saturating_mul(w));
+                            let r2 = r[r.chars().take_while(|c| c.is_ascii_digit() || *c == '_').count()..].trim_start();
+                            if let Some(r3) = r2.strip_prefix('*') {
+                                let d3: String = r3.trim_start().chars().take_while(|c| c.is_ascii_digit() || *c == '_').filter(|c| *c != '_').collect();
+                                if let Ok(x) = d3.parse::<u128>() {
+                                    add(v.saturating_mul(w).saturating_mul(x));
+                                }
+                            }
+                        }
+                    }
+                }
+            } else {
+                i += 1;
+            }
+        }
+    }
+    vals.sort();
+    vals
+}
+
 /// addresses written as base58 literals anywhere in the sources of a crate of the tree under test,
 /// read at run time: a constant the code knows about is an input worth trying
 pub fn mined_keys(dir: &str) -> Vec<solana_pubkey::Pubkey> {
